@@ -1,2 +1,47 @@
-(* C06 - placeholder while the model is being validated; theorems follow *)
-From GV Require Import Base.Bytes Base.Scan Base.PyStr Model.Parser.
+(* C06 - Parsing does not depend on how bytes are split across reads.
+   Only statements, each closed by [exact]; model in Model/Parser.v, proofs in Proof/Parser*.v,
+   Proof/Body*.v, Proof/Chunked*.v. *)
+From Coq Require Import List NArith ZArith Bool.
+From GV Require Import Base.Bytes Base.Scan Base.PyStr Model.Parser Proof.ParserHead Proof.ChunkedReader.
+Import ListNotations.
+
+(* [run c x progs p] is the whole observable behaviour of a connection whose successive reads are the
+   chunks of [p]: every request (method, target, version, header list, scheme, PROXY info, close
+   decision), the result of every call of each request's read program on wsgi.input, the trailers, the
+   number of bytes left after each body, and the terminal event (clean end or the exception class).
+   It is the same for every segmentation of the same stream: no bound on stream length, number of
+   requests, number or size of reads. *)
+Theorem C06_segmentation_independent : forall c x progs p,
+    NE p -> run c x progs p = run c x progs (whole (u_abs p)).
+Proof. exact run_segmentation_independent. Qed.
+Print Assumptions C06_segmentation_independent.
+
+Corollary C06_two_segmentations_agree : forall c x progs p1 p2,
+    NE p1 -> NE p2 -> concat p1 = concat p2 -> run c x progs p1 = run c x progs p2.
+Proof.
+  intros c x progs p1 p2 H1 H2 E.
+  rewrite (run_segmentation_independent c x progs p1 H1), (run_segmentation_independent c x progs p2 H2).
+  unfold u_abs. rewrite E. reflexivity.
+Qed.
+Print Assumptions C06_two_segmentations_agree.
+
+(* the request head alone: same request, same leftover bytes *)
+Theorem C06_head_independent : forall c x n p, NE p ->
+    canon_req (parse_request c x n p) = canon_req (parse_request c x n (whole (u_abs p))).
+Proof. exact parse_request_indep. Qed.
+Print Assumptions C06_head_independent.
+
+(* ---- non-vacuity: a pipelined chunked request cut inside the chunk-size line, the chunk
+        terminator and the trailer, against the unsegmented stream ---- *)
+Definition ex_stream : bytes :=
+  [80;79;83;84;32;47;32;72;84;84;80;47;49;46;49;13;10;
+   84;114;97;110;115;102;101;114;45;69;110;99;111;100;105;110;103;58;32;99;104;117;110;107;101;100;13;10;13;10;
+   53;13;10;104;101;108;108;111;13;10;48;13;10;88;58;32;49;13;10;13;10;
+   71;69;84;32;47;110;32;72;84;84;80;47;49;46;49;13;10;13;10]%N.
+Definition ex_ext : ext := {| uri_ok := fun _ => true; inet_ok := fun _ _ => true |}.
+Definition ex_cut (n m : nat) : unreader := [firstn n ex_stream; firstn m (skipn n ex_stream); skipn (n + m) ex_stream].
+Example segmented_run_is_nontrivial :
+  run default_cfg ex_ext [[Read (Some 2%Z); Readline None]; []] (ex_cut 48 9)
+  = run default_cfg ex_ext [[Read (Some 2%Z); Readline None]; []] [ex_stream]
+  /\ length (run default_cfg ex_ext [[Read (Some 2%Z); Readline None]; []] [ex_stream]) = 73%nat.
+Proof. vm_compute. split; reflexivity. Qed.
